@@ -15,6 +15,15 @@ fn main() {
     let args: Vec<String> = std::env::args().collect();
     if args.len() < 2 { eprintln!("usage: vcheck <Cxx> [quick|thorough] | vcheck <Cxx> --replay <file>"); std::process::exit(2); }
     let id = args[1].clone();
+    if id == "--parse" {
+        // debugging aid: vcheck --parse <file with one MT message> : auto-parse, print type, JSON and re-serialised text
+        let text = std::fs::read_to_string(&args[2]).unwrap_or_default();
+        match swift_mt_message::SwiftParser::parse_auto(text.trim_end_matches('\n')) {
+            Ok(p) => { println!("type {}\njson {}", p.message_type(), serde_json::to_string(&p).unwrap_or_default()); }
+            Err(e) => println!("rejected: {e}"),
+        }
+        std::process::exit(0);
+    }
     if args.len() >= 4 && args[2] == "--replay" {
         std::process::exit(props::replay(&id, &args[3]));
     }
